@@ -395,6 +395,26 @@ def run_shard(ctx):
     ctx.hypothesis_stage("layer1-any-structure", cases(False), make_body(False), 1400 if quick else 1400)
     ctx.hypothesis_stage("layers123-amino-acid", cases(True), make_body(True), 500 if quick else 500)
 
+    # disulfide contacts of every length the distance table allows, along axes and diagonals, in every orientation
+    @st.composite
+    def ss_cases(draw):
+        ents, info = draw(gen.bridged_chains())
+        rot_i, trans, kind = draw(motion_strategy(pdbio.bbox(ents)))
+        return ents, info, rot_i, trans, kind
+
+    def ss_body(t):
+        ents, sinfo, rot_i, trans, kind = t
+        text = pdbio.write(ents)
+        for r in ([rot_i] if quick else range(24)):
+            case = {"pdb": text, "rot": r, "trans": list(trans) if r == rot_i else [0, 0, 0], "layers23": False}
+            v, info = check_case(case)
+            info["labels"] = info.get("labels", []) + ["disulfide-contact", "trans:" + kind, "rot:%d" % r]
+            info["sample"] = {"structure": "two chains joined by an S-S contact", **sinfo,
+                              "rotation": pdbio.ROTATIONS[r], "translation_mA": case["trans"]}
+            ctx.account(case, v, info)
+
+    ctx.hypothesis_stage("layer1-disulfide-contacts", ss_cases(), ss_body, 600 if quick else 600)
+
     # buried hosts (whole reference proteins with threaded clusters): only there the backbone-reorganisation term and
     # the Coulomb terms are switched on, so only there a frame dependence of those routines can show
     @st.composite
